@@ -180,7 +180,7 @@ def e2e_schedule(case, sent):
             msg["cd"] = list(cd)
         steps.append(dict(dt=100, msg=msg))
         steps += [dict(dt=100) for _ in range(GAP)]
-    return dict(settings=case["settings"], init=case.get("init", {}), prefix=E2E_PREFIX, buffer=8192, kind="e2e", steps=steps)
+    return dict(settings=case["settings"], init=case.get("init", {}), prefix=E2E_PREFIX, buffer=case.get("buffer", 8192), kind="e2e", steps=steps)
 
 
 def e2e_device(case, sent):
@@ -194,7 +194,11 @@ def e2e_device(case, sent):
         if k < STARTUP:
             continue
         if (k - STARTUP) % (GAP + 1) == 0:
-            records.append(dict(state=st["before"]["state"], handled=st.get("handled") is not None, oracle=st.get("oracle"), can_publish=st["before"]["can_publish"]))
+            orc = st.get("oracle") or {}
+            # did the device put the value it holds on the wire in this call? (no: minimq's transmit buffer could not hold it)
+            sent_value = any(pk["t"] == "pub" and pk["payload"] == orc.get("get") for pk in st.get("packets", []))
+            records.append(dict(state=st["before"]["state"], handled=st.get("handled") is not None, oracle=st.get("oracle"), can_publish=st["before"]["can_publish"],
+                                value_sent=sent_value))
         for pk in st.get("packets", []):
             if pk["t"] == "pub" and not pk["dup"]:
                 packets.append(pk)
